@@ -60,7 +60,7 @@ impl PagedWriter {
     /// C16: an operation that reports success has seen no device error
     pub open spec fn no_new_fault(&self, o: &Self) -> bool { self.writer.failed@ == o.writer.failed@ }
 
-//@fn src/paged_writer.rs PagedWriter new serves=C11,C16,C02,C15 ret=r
+//@fn src/paged_writer.rs PagedWriter new serves=C11,C16,C02,C15,C06 ret=r
 //@rw mut writer: T ==> mut writer: Dev
 //@rw \[0_u8; PAGE_SIZE as usize\] ==> [0_u8; 1024]
 //@rw #\[cfg\(not\(feature = "crc32c"\)\)\] ==> <empty>
@@ -75,7 +75,7 @@ impl PagedWriter {
         proof { reveal(stream_of); reveal(phys); reveal(unphys); reveal(quiet_of); }
 //@endfn
 
-//@fn src/paged_writer.rs PagedWriter read_current_page serves=C11,C16,C15 ret=r
+//@fn src/paged_writer.rs PagedWriter read_current_page serves=C11,C16,C15,C06 ret=r
 //@rw std::io::Result<\(\)> ==> std::result::Result<(), IoError>
 //@sig
         requires old(self).dl() % 1024 == 0, old(self).writer.pos % 1024 == 0, old(self).writer.pos <= old(self).dl(),
@@ -125,7 +125,7 @@ impl PagedWriter {
         }
 //@endfn
 
-//@fn src/paged_writer.rs PagedWriter write trait=Write serves=C11,C16,C02,C15 ret=r
+//@fn src/paged_writer.rs PagedWriter write trait=Write serves=C11,C16,C02,C15,C06 ret=r
 //@rw std::io::Result<usize> ==> std::result::Result<usize, IoError>
 //@rw #\[cfg\(not\(feature = "crc32c"\)\)\] ==> <empty>
 //@rw #\[cfg\(feature = "crc32c"\)\]\s*let crc = [^;]*; ==> <empty>
@@ -418,7 +418,7 @@ impl PagedWriter {
         proof { lemma_aligned_step(old(self).writer.pos as int, old(self).dl()); reveal(stream_of); reveal(phys); reveal(unphys); if old(self).quiet() { lemma_quiet_clean(*old(self)); } }
 //@endfn
 
-//@fn src/paged_writer.rs PagedWriter physical_size serves=C11,C16,C02,C15 ret=r
+//@fn src/paged_writer.rs PagedWriter physical_size serves=C11,C16,C02,C15,C06 ret=r
 //@sig
         requires old(self).wf(),
         ensures match r {
@@ -448,7 +448,7 @@ impl PagedWriter {
         proof { reveal(stream_of); reveal(phys); reveal(unphys); if old(self).quiet() { lemma_quiet_clean(*old(self)); } }
 //@endfn
 
-//@fn src/paged_writer.rs PagedWriter align serves=C11,C16,C02,C15 ret=r
+//@fn src/paged_writer.rs PagedWriter align serves=C11,C16,C02,C15,C06 ret=r
 //@rw &zeros\[mod_offset\.\.\] ==> vstd::slice::slice_subrange(&zeros, mod_offset, 4)
 //@tail
         proof {
@@ -473,7 +473,7 @@ impl PagedWriter {
             /*[C15]*/ PagedWriter::c15_same(old(self), final(self), r is Ok),
 //@endfn
 
-//@fn src/paged_writer.rs PagedWriter flush trait=Write serves=C11,C16,C02,C15 ret=r
+//@fn src/paged_writer.rs PagedWriter flush trait=Write serves=C11,C16,C02,C15,C06 ret=r
 //@rw std::io::Result<\(\)> ==> std::result::Result<(), IoError>
 //@rw #\[cfg\(not\(feature = "crc32c"\)\)\] ==> <empty>
 //@rw #\[cfg\(feature = "crc32c"\)\]\s*let crc = [^;]*; ==> <empty>
@@ -511,7 +511,7 @@ impl PagedWriter {
 //@endfn
 
     // C15: dropping the writer without finalize flushes the current page: still nothing for the XML-length field
-//@fn src/paged_writer.rs PagedWriter drop trait=Drop rename=drop_impl serves=C15
+//@fn src/paged_writer.rs PagedWriter drop trait=Drop rename=drop_impl serves=C15,C06
 //@sig
         requires old(self).wf(),
         ensures /*[C15]*/ old(self).quiet() ==> final(self).hist_clean(),
